@@ -99,3 +99,33 @@ def apply(h, eta, zeta, e, zero):
                     s = s + eta[d][cidx]
             out[(d, idx)] = out[(d, idx)] - s*e[d][idx]/4
     return out
+
+
+def apply_edge(h, eta, zeta, e, d, idx, zero):
+    """(A e) at the single interior edge (d, idx) — same operator as apply."""
+    shape = tuple(len(x) for x in h)
+    d1, d2 = CYC[d]
+    acc = zero
+    # faces containing this edge: normal d2 (cells d, d1; node d2 = idx[d2])
+    # at cell index idx[d1]-1 and idx[d1]; normal d1 likewise.
+    for nd, od in ((d2, d1), (d1, d2)):
+        for off in (0, 1):
+            fidx = add(idx, unit(od), -off)
+            if not (0 <= fidx[od] <= shape[od]-1):
+                continue
+            if not 1 <= fidx[nd] <= shape[nd]-1:
+                continue
+            rows = curl_rows(shape, h, nd, fidx)
+            cme = None
+            circ = zero
+            for (ed, eidx, c) in rows:
+                circ = circ + c*e[ed][eidx]
+                if ed == d and eidx == idx:
+                    cme = c
+            mf = (zeta[add(fidx, unit(nd), -1)] + zeta[fidx])/2
+            acc = acc + cme*(mf*circ)
+    s = zero
+    for a in (0, 1):
+        for b in (0, 1):
+            s = s + eta[d][add(add(idx, unit(d1), -a), unit(d2), -b)]
+    return acc - s*e[d][idx]/4
